@@ -1,7 +1,113 @@
 import ComposeVerif.Model.Dotenv
+import ComposeVerif.Spec.Dotenv
+import ComposeVerif.Lemmas.Dotenv
 /-!
 # C18 — the env-file parser implements the dotenv grammar and never crashes
+
+Property theorems only (helper lemmas live in `Lemmas/Dotenv.lean`).  The model
+(`Model/Dotenv.lean`) is tied to `dotenv.UnmarshalWithLookup` by the `dotenv`
+correspondence op; the specification (`Spec/Dotenv.lean`) is what the theorems below
+compare it with.
 -/
 namespace CV.Dotenv
+open CV CV.Template
+
+/-! ## never crashes, always terminates -/
+
+/-- For EVERY input string and lookup function the parser's own index and slice expressions
+    (`src[pos:]`, `src[0]`, `src[0:i]`, `src[offset:]`, `strings.Split(..)[0]`, `src[i]`, `src[i+1:]`,
+    `src[:valEndIndex]`) stay in range and the statement loop terminates within `len(src)+2`
+    iterations: the only panic outcomes left are those of `template.Substitute` (property C07). -/
+theorem parse_never_panics (src : Str) (lookup : Env) (s : Site) (h : parse src lookup = .panic s) :
+    ∃ p, s = .tmpl p ∧ ∃ env t, Template.subst env t = .panic p :=
+  parse_panic_sites src lookup s h
+
+/-- … hence: if `template.Substitute` never panics (C07 `subst_never_panics`), parsing never panics. -/
+theorem parse_never_panics_of_subst (hsub : ∀ env t p, Template.subst env t ≠ .panic p)
+    (src : Str) (lookup : Env) (s : Site) : parse src lookup ≠ .panic s := by
+  intro h
+  obtain ⟨p, _, env, t, hp⟩ := parse_panic_sites src lookup s h
+  exact hsub env t p hp
+
+/-! ## the parser computes the grammar's meaning -/
+
+/-- Refinement.  For EVERY list of well-formed grammar lines (blank, comment, bare key, assignment with
+    `=` or `:`, optional `export`, unquoted / single-quoted / double-quoted value, trailing white space,
+    inline or trailing comment; no bound on the number or length of lines) and every lookup function,
+    parsing the rendered file yields exactly what the grammar says: later assignments replace earlier
+    ones, bare keys are inherited from the lookup, single-quoted values are literal, unquoted and
+    double-quoted values are interpolated against the lookup first and earlier lines second. -/
+theorem parse_render (lookup : Env) (ls : List Line) (hwf : WF ls = true) :
+    parse (render ls) lookup = evalLines lookup ls :=
+  parse_render_lemma lookup ls hwf
+
+/-- non-vacuity: a file using every line form is well-formed -/
+example : WF [
+    .comment [' '] ['h', 'i'],
+    .assign [] (some [' ']) ['A'] [] .eq [' '] (.unq ['$', 'B', ' ', 'x']) [' '] (some ['c']),
+    .blank ['\t'],
+    .assign ['\t'] none ['B', '.', '1'] [' '] .colon [] (.dq [.chr 'a', .esc 'n', .quote, .esc '$']) [] none,
+    .assign [] none ['A'] [] .eq [] (.sq [.chr '$', .quote, .esc 'n']) ['\r'] (some []),
+    .bare [] (some ['\t']) ['C'] [' ']] = true := by decide
+
+/-- the same statement for a file that continues after the well-formed lines (used by the error theorems) -/
+theorem parse_render_prefix (lookup : Env) (ls : List Line) (hwf : WF ls = true) (tail : Str) :
+    ∃ f, parse (render ls ++ tail) lookup =
+      (evalLines lookup ls).andThen (fun m => parseLoop (f + 1) tail m lookup) := by
+  have hle : stmts ls ≤ (render ls ++ tail).length := by
+    have := stmts_le_length ls
+    simp; omega
+  refine ⟨(render ls ++ tail).length - stmts ls + 1, ?_⟩
+  unfold parse evalLines
+  have e : (render ls ++ tail).length + 2 = ((render ls ++ tail).length - stmts ls + 1 + 1) + stmts ls := by omega
+  rw [e, parseLoop_render lookup ls hwf _ tail []]
+
+/-! ## the result map behaves like a map: later assignments win -/
+
+theorem get_put_same (m : Map) (k v : Str) : get (put m k v) k = some v := by
+  induction m with
+  | nil => simp [put, get]
+  | cons p m ih =>
+    obtain ⟨k', v'⟩ := p
+    by_cases h : k = k'
+    · simp [put, get, h]
+    · simp [put, get, h, ih]
+
+theorem get_put_other (m : Map) (k k' v : Str) (h : k' ≠ k) : get (put m k v) k' = get m k' := by
+  induction m with
+  | nil => simp [put, get, h]
+  | cons p m ih =>
+    obtain ⟨k₀, v₀⟩ := p
+    by_cases h0 : k = k₀
+    · subst h0; simp [put, get, h]
+    · by_cases h1 : k' = k₀
+      · simp [put, get, h0, h1]
+      · simp [put, get, h0, h1, ih]
+
+/-- keys stay distinct: the association list is a faithful Go map -/
+theorem put_keys_nodup (m : Map) (k v : Str) (h : (m.map Prod.fst).Nodup) : ((put m k v).map Prod.fst).Nodup := by
+  induction m with
+  | nil => simp [put]
+  | cons p m ih =>
+    obtain ⟨k₀, v₀⟩ := p
+    simp only [List.map_cons, List.nodup_cons] at h
+    by_cases h0 : k = k₀
+    · subst h0; simpa [put] using h
+    · simp only [put, h0, if_false, List.map_cons, List.nodup_cons]
+      refine ⟨?_, ih h.2⟩
+      intro hm
+      have : ∀ (m : Map), k₀ ∈ (put m k v).map Prod.fst → k₀ ∈ m.map Prod.fst := by
+        intro m
+        induction m with
+        | nil => intro hm; simp [put] at hm; exact absurd hm.symm h0
+        | cons q m ihm =>
+          obtain ⟨k₁, v₁⟩ := q
+          by_cases h1 : k = k₁
+          · subst h1; simp [put]
+          · simp only [put, h1, if_false, List.map_cons, List.mem_cons]
+            rintro (h | h)
+            · exact Or.inl h
+            · exact Or.inr (ihm h)
+      exact h.1 (this m hm)
 
 end CV.Dotenv
